@@ -285,17 +285,22 @@ def variable_section(ctx):
         masters = [master(k, agree) for k in range(3)]
         fn = ["compileVariableTTF", "compileVariableCFF2"][(i // 3) % 2]
         vfeat = i % 2 == 0 or i < 3
+        # an axis <map> that is not the identity: the middle master sits at design 500, which is USER 400 (what fvar and
+        # the instancer speak); every third family, always one with variable features
+        mapped = i % 3 == 1
         case = {"function": fn, "variableFeatures": vfeat, "lib": lib, "masters_agreeing_on_the_varied_coordinates": list(agree),
-                "masters": [jsonable(m) for m in masters]}
-        ctx.count(); ctx.klass("variable marks: masters %s agree/%s/vfeat=%s" % (agree, fn, vfeat)); ctx.nontriv(("vm", i, ctx.scale))
+                "axis_map": [(100, 100), (400, 500), (900, 900)] if mapped else None, "masters": [jsonable(m) for m in masters]}
+        ctx.count(); ctx.klass("variable marks: masters %s agree/%s/vfeat=%s%s" % (agree, fn, vfeat, "/axis map" if mapped else "")); ctx.nontriv(("vm", i, ctx.scale))
         try:
             ds, fonts = dsgen.make_designspace(rng, masters, lib, instances=False)
+            if mapped:
+                ds.axes[0].map = [(100, 100), (400, 500), (900, 900)]
             vf = getattr(ufo2ft, fn)(ds, variableFeatures=vfeat, useProductionNames=False)
             b = io.BytesIO(); vf.save(b)
         except Exception as e:
             ctx.spec_failure(case, "%s raised %s: %s\n%s" % (fn, type(e).__name__, e, traceback.format_exc()[-1000:]))
             continue
-        for k, wght in enumerate([100, 500, 900]):
+        for k, wght in enumerate([100, 400 if mapped else 500, 900]):
             inst = instancer.instantiateVariableFont(TTFont(io.BytesIO(b.getvalue())), {"wght": wght})
             b2 = io.BytesIO(); inst.save(b2)
             lay = Layout(TTFont(io.BytesIO(b2.getvalue())))
